@@ -7,7 +7,7 @@ PROPS = {
             "note": "hook receives true result and operands in order: mirror clauses (argument list == operands left in the wrapped expression)"},
     "C04": {"units": ["U4", "U5", "U6b", "U6c"], "min_obligations": 6,
             "note": "every enabled operation instrumented: expr_done postcondition of the dispatcher, NotModified-only-if-literal lemmas of the transforms; traversal (children reach the visitor) is the assumed swc contract"},
-    "C05": {"units": ["U2", "U2b", "U3", "U4", "U5", "U6b", "U9"], "min_obligations": 5,
+    "C05": {"units": ["U2", "U2b", "U3", "U4", "U5", "U6b", "U9"], "min_obligations": 5, "kani": True,
             "note": "configuration honoured: operator gates, hook names taken from the configured dst, disabled operators untouched"},
     "C06": {"units": ["U1", "U3", "U4", "U5", "U6a", "U6b", "U6c", "U7"], "min_obligations": 10,
             "note": "temporaries hygienic: fresh index, declared, assigned before use"},
